@@ -7,7 +7,7 @@ import subprocess
 
 VERIF = os.path.dirname(os.path.dirname(os.path.abspath(__file__)))
 CACHE = os.path.join(VERIF, ".cache")
-HBIN = os.path.join(VERIF, "harness", "target", "debug", "verif-harness")
+HBIN = os.environ.get("VERIF_HBIN", os.path.join(VERIF, "harness", "target", "debug", "verif-harness"))
 
 
 def _check():
@@ -151,9 +151,21 @@ def shrink_trace(family, prefix, eval_index, trace_json, budget=45):
     return json.dumps(dict(t, steps=steps))
 
 
+def open_findings(pid):
+    """open known findings of known_findings.json that list this property: {finding id: entry}"""
+    try:
+        kf = json.load(open(os.path.join(VERIF, "known_findings.json")))
+    except (OSError, ValueError):
+        return {}
+    return {f["id"]: f for f in kf.get("findings", []) if pid in f.get("properties", [])}
+
+
 def run_trace_family(family, prefix, eval_index, clauses, proj_text, prop, tier, seed, replay, coverage,
-                     quick_n=320, thorough_n=4000, steps=40):
+                     quick_n=320, thorough_n=4000, steps=40, known_codes=None):
     failing, divergent, errors = [], [], []
+    known_codes = known_codes or {}
+    listed = open_findings(prop["id"])
+    known_hits = {}
     total_traces, total_steps, classes, samples = 0, 0, {}, []
 
     def absorb(d, label):
@@ -169,7 +181,10 @@ def run_trace_family(family, prefix, eval_index, clauses, proj_text, prop, tier,
         for idx, code in results.get(eval_index, []):
             case = cases[idx] if idx < len(cases) else "{}"
             step, c = code // 1000, code % 1000
-            if c >= 100:
+            if c >= 300 and known_codes.get(c - 100) in listed:
+                fid = known_codes[c - 100]
+                known_hits.setdefault(fid, {"count": 0, "first": {"src": label, "step": step, "clause": c - 100}})["count"] += 1
+            elif c >= 100:
                 failing.append({"why": "%d (%s) at step %d" % (c - 100, clauses.get(c - 100, "?"), step),
                                 "case": case, "src": label})
             else:
@@ -216,7 +231,10 @@ def run_trace_family(family, prefix, eval_index, clauses, proj_text, prop, tier,
         "disagreements_checked": len(divergent),
         "distribution": classes,
     })
-    return {"failing": failing, "divergent": divergent, "errors": errors}
+    known_lines = ["KNOWN-FINDING: property=%s %s (finding %s; %d step(s) of this run fall in its class, first: %s step %d)" % (
+        prop["id"], listed[fid]["what"], fid, h["count"], h["first"]["src"], h["first"]["step"]) for fid, h in sorted(known_hits.items())]
+    coverage["known_findings_seen"] = {fid: h["count"] for fid, h in known_hits.items()}
+    return {"failing": failing, "divergent": divergent, "errors": errors, "known_lines": known_lines}
 
 
 C01_CLAUSES = {1: "reported supply differs from the sum of listed balances", 2: "a holder with non-zero balance is not listed",
@@ -436,3 +454,91 @@ PROPS["C14"] = _cw4_prop("C14", 2, C14_CLAUSES, "admin, hooks, member list and h
     "weights each `old` is the running weight, the result is the new table, unmentioned addresses are unchanged); cw4-stake "
     "notifies exactly when the weight changed; no other call notifies. Tie to the Rust: S_C14 on every implementation step with "
     "real hook-receiver contracts (and non-contract hooks that make the call roll back) + equality of messages (measured).")
+
+
+# ------------------------------------------------------------------------------------------
+# cw3 family
+C03_CLAUSES = {1: "status Passed although the recorded ballots do not pass the rule", 2: "status Open although the ballots pass the rule",
+               3: "status Open although the proposal has expired", 4: "status Rejected although the ballots pass the rule",
+               5: "status Rejected although not expired and the proposal can still pass", 6: "status Pending",
+               7: "the threshold rule aborts on an in-range tally",
+               200: "ballots outweigh the proposal's total (the rule itself is undefined)"}
+C05_CLAUSES = {1: "messages dispatched for a proposal that was not Passed", 2: "a proposal dispatched twice in one transaction",
+               3: "dispatched messages differ from refund + the proposed messages", 4: "Execute by an unauthorised caller",
+               5: "Close accepted on a passed or executed proposal", 6: "Close accepted before expiry", 7: "Close dispatched messages",
+               8: "Propose/Vote emitted proposal messages or refunds", 9: "a failed handler call emitted messages",
+               10: "a failed transaction changed proposals", 11: "proposal ids are not 1,2,3,...", 12: "a proposal disappeared",
+               13: "content/threshold/total/expiry/proposer/deposit of an existing proposal changed", 14: "a proposal's status moved backwards",
+               15: "a new proposal expires later than the maximum voting period"}
+C06_CLAUSES = {1: "ballots of a proposal changed other than by one new ballot of the voting address", 2: "ballot cast after expiry",
+               3: "ballot cast on an executed proposal", 4: "ballot weight differs from the voter's weight in the proposal's snapshot",
+               5: "zero-weight address voted", 6: "a new proposal does not hold exactly the proposer's Yes ballot",
+               7: "proposer's ballot weight differs from the snapshot weight", 8: "proposal total differs from the sum of the snapshot weights",
+               201: "proposer weight taken after a same-block group change", 202: "total taken after a same-block group change",
+               203: "ballots outweigh the total"}
+C15_CLAUSES = {1: "an executed proposal's deposit was not returned exactly once to the proposer", 2: "Close: refund missing or not promised",
+               3: "a refund emitted by a call other than Execute/Close", 4: "deposit message without a configured deposit",
+               5: "recorded deposit differs from the configured one", 6: "Propose accepted with funds other than exactly the deposit",
+               7: "deposit not moved exactly from proposer to multisig", 8: "cw20 deposit not pulled by exactly one TransferFrom of the amount",
+               204: "Close refused on an expired failed proposal: deposit not recoverable"}
+CW3_KNOWN = {200: "D3", 201: "D3", 202: "D3", 203: "D3", 204: "D6"}
+
+
+def mk_cw3_run(eval_index, clauses, proj):
+    def run(prop, tier, seed, replay, coverage):
+        return run_trace_family("cw3", "cw3", eval_index, clauses, proj, prop, tier, seed, replay, coverage,
+                                quick_n=192, thorough_n=2400, steps=30, known_codes=CW3_KNOWN)
+    return run
+
+
+CW3_ASSUME = [
+    "theorems are about the Gallina transliteration of cw3-fixed-multisig / cw3-flex-multisig and packages/cw3 (Cw3Model.v, "
+    "Cw3Threshold.v); agreement with the Rust is measured on the explored histories only",
+    "what a flex multisig reads from its group during a call (raw member/total now, Member{at_height}) is recorded from the real "
+    "cw4-group by the harness and fed to the model; the group's own correctness is C09",
+    "chain atomicity and depth-first dispatch are cw-multi-test's; nested self-calls are observed through the wrapped entry point",
+    "proposal messages are a small language (bank send, self Execute/Close, accepted/refused target call); titles are opaque ids",
+]
+
+
+def _cw3_prop(pid, idx, clauses, proj, text):
+    return {
+        "id": pid, "props_file": "Props/%s.v" % pid,
+        "coq_targets": ["Props/%s.v" % pid, "Cw3Check.v"], "exec_targets": ["Cw3Check.v"],
+        "run": mk_cw3_run(idx, clauses, proj), "assumptions": CW3_ASSUME, "level_text": text,
+        "design_ref": "DESIGN.md section 6 " + pid,
+    }
+
+
+PROPS["C03"] = _cw3_prop("C03", 0, C03_CLAUSES, "proposal list (status, ballots, threshold, total)",
+    "Axiom-free Coq theorems: in every reachable state of either multisig the tally is the sum of the recorded ballots per "
+    "option and a Passed/Executed proposal has Yes weight > 0; the status reported by queries and the status Execute/Close are "
+    "admitted on are one function, which for a stored-Open proposal is C04's threshold rule on the present tally, total and "
+    "expiry; Execute is admitted only when it says Passed (never with zero Yes); decisions latched before expiry stay valid for "
+    "every later tally within the total (C04 stability); on cw3-fixed ballots never outweigh the total (sum over the voter map). "
+    "PARTIAL: the history-level equality for latched statuses on cw3-flex needs C06's range condition (known finding D3). Tie to "
+    "the Rust: S_C03 recomputes the outcome from ListVotes, threshold, total and expiry for every proposal before and after "
+    "every call on both real contracts (measured) + model/implementation equality of every proposal.")
+PROPS["C05"] = _cw3_prop("C05", 1, C05_CLAUSES, "proposal list and handler responses",
+    "Axiom-free Coq theorems: Execute is accepted only while the (query) status is Passed and only for an authorised caller, "
+    "emits refund + exactly the proposed messages and marks Executed; Close only on an expired, not-passed, unsettled proposal "
+    "and dispatches nothing but the refund; over EVERY history of handler calls (any callers incl. the multisig itself: "
+    "re-entrancy, any blocks, failed calls rolled back) a proposal is settled at most once, so its messages are dispatched at "
+    "most once (induction, absorbing finished states); content/threshold/total/expiry/deposit never change; ids are 1,2,3..; "
+    "expiry <= max voting period. PARTIAL: status monotonicity is assembled from C04 stability + stickiness, not one theorem. "
+    "Tie to the Rust: S_C05 on every transaction incl. nested self-calls logged by the wrapped entry point (measured).")
+PROPS["C06"] = _cw3_prop("C06", 2, C06_CLAUSES, "ballots, totals and the group's at-height answers",
+    "Axiom-free Coq theorems: a vote adds exactly one ballot, only without a previous one, before expiry, on an unexecuted "
+    "proposal, with weight >= 1 from the voter list / the group AT the proposal's start height; ballots and totals of existing "
+    "proposals never change; cw3-fixed: total = sum of stored voters, ballots carry the voters' weights and never outweigh the "
+    "total in any reachable state; cw3-flex: vote weight = Member{at start height}, which later group changes cannot alter "
+    "(C09), and proposer weight/total are the same snapshot PROVIDED no group change earlier in the block; c06_refuted proves "
+    "the full statement false otherwise (known finding D3). Tie to the Rust: S_C06 compares every new ballot with the real "
+    "group's at-height answer and the start-of-block member list recorded by the harness (measured).")
+PROPS["C15"] = _cw3_prop("C15", 3, C15_CLAUSES, "deposit messages and balances",
+    "Axiom-free Coq theorems: Propose with a native deposit is accepted only with exactly one coin of exactly the amount; a "
+    "cw20 deposit emits exactly one TransferFrom of the amount; refunds are emitted only by Execute (always) and Close (iff "
+    "refund_failed_proposals), to the proposer, of the recorded deposit; a proposal is settled at most once over every history "
+    "so refunds <= 1; an expired failed proposal still stored Open is always closable with refund; c15_refuted proves that not "
+    "every failed proposal is (known finding D6). Tie to the Rust: S_C15 on every transaction incl. balance deltas of "
+    "proposer and multisig in bank / cw20 (measured).")
